@@ -9,9 +9,13 @@ P = dict(
               'the millisecond clock (the parser\'s only other input: default shuffle seed) is a pinned seam whose reading is part of every case; '
               'applied -vv judged differentially against the same vector one verbosity level down; '
               'multiplicity of the scalar option -o enumerated (every sequence of 1..3 -o options x kind word x attached/separated x 6 contexts): getters must report one of the given kinds '
-              'and the runner must apply exactly the kind the getters report (files opened / teamcity messages / console, verbosity, package) also when different kinds are given',
+              'and the runner must apply exactly the kind the getters report (files opened / teamcity messages / console, verbosity, package) also when different kinds are given; '
+              'applied output format judged on whichever console stream the output kind owns (plain console, the console next to the junit files under -v/-vv, the teamcity console): '
+              'every result line ("OK (" / "Errors (") of a -c run must be switched to green / red by an escape sequence in front of it, a run without -c must print no escape sequence; '
+              'probe registries with failing probes make the "red if failed" half observable',
     rule='cases: argument vectors. Four finite sub-domains are enumerated completely (every documented option form alone and in every ordered pair; every truncation / dropped argument of every form plus a table of malformed TEST( / group.name / number shapes; '
          'every sequence of 1..3 -o options over normal/eclipse/junit/teamcity in attached/separated form in 6 contexts; '
+         'every ordered subset of the format options -c -v -vv x no -o / each kind word attached and separated, in front of or behind them x 9 run-shaping contexts (filter, nothing selected, -r2, package, -p, -ri, -b -s7) x all probes passing / three probes failing; '
          'every clock-reading vector shape x the lattice of clock readings 2^k+d, m*2^32+d, 0, ULONG_MAX x constant/advancing clock); '
          'random sequences of documented options (attached/separated, identifier-like values with substring relations to the probe registry), filter-only vectors, arbitrary bytes 1..255, mutations of valid vectors. '
          'Non-trivial = a vector the reference reads as documented with >= 2 value-carrying options in mixed attached/separated form, or a vector outside the documented grammar that the parser rejects; distinct by the argv bytes',
@@ -19,10 +23,14 @@ P = dict(
     counter_floor=dict(
         quick={'configurations_compared': 40000, 'selection_runs': 30000, 'real_rejected': 20000, 'list_outputs_compared': 1000, 'separate_process_runs': 1000, 'output_kind_applied_junit': 500, 'output_kind_applied_teamcity': 500,
                'very_verbose_differential_checked': 2000, 'very_verbose_differential_checked_with_v_too': 400, 'verbose_output_checked_junit_composite': 100,
+               'color_result_lines_checked_console': 4000, 'color_result_lines_checked_junit_composite_console': 300, 'color_result_lines_checked_teamcity_console': 500,
+               'color_ok_lines_checked_green': 3000, 'color_errors_lines_checked_red_failed_test': 500, 'color_errors_lines_checked_red_ran_nothing': 1000, 'no_color_output_checked': 40000,
                'unseeded_shuffle_vectors_clock_nonzero_multiple_of_2p32': 1000, 'unseeded_shuffle_vectors_clock_zero': 100, 'unseeded_shuffle_vectors_clock_low32_all_ones': 800,
                'output_kind_conflict_vectors': 3000, 'output_kind_applied_with_several_o_kinds': 3000},
         thorough={'configurations_compared': 300000, 'selection_runs': 200000, 'real_rejected': 100000, 'list_outputs_compared': 5000, 'separate_process_runs': 5000, 'output_kind_applied_junit': 3000, 'output_kind_applied_teamcity': 3000,
                   'very_verbose_differential_checked': 10000, 'very_verbose_differential_checked_with_v_too': 2000, 'verbose_output_checked_junit_composite': 500,
+                  'color_result_lines_checked_console': 20000, 'color_result_lines_checked_junit_composite_console': 400, 'color_result_lines_checked_teamcity_console': 800,
+                  'color_ok_lines_checked_green': 10000, 'color_errors_lines_checked_red_failed_test': 500, 'color_errors_lines_checked_red_ran_nothing': 3000, 'no_color_output_checked': 200000,
                   'unseeded_shuffle_vectors_clock_nonzero_multiple_of_2p32': 3000, 'unseeded_shuffle_vectors_clock_zero': 300, 'unseeded_shuffle_vectors_clock_low32_all_ones': 2500,
                   'output_kind_conflict_vectors': 3000, 'output_kind_applied_with_several_o_kinds': 3000},
     ),
@@ -36,6 +44,11 @@ P = dict(
         'the shuffle seed is compared only when every -s carries one (otherwise it comes from the clock: which value it becomes is not documented and only counted; that the documented vector is accepted whatever the clock reads is judged)',
         'the clock is replaced through the GetPlatformSpecificTimeInMillis seam for the whole case (constant, or advancing by 1 per reading): durations in the output are 0 or tiny',
         '-vv ("print internal information during test run") is judged without fixing the wording: the console output must be strictly longer than that of the same vector with every -vv replaced by -v (same registry, same clock), also when -v is given too and for the console that accompanies -ojunit; -v alone printing more than test names is not judged',
+        '-c ("colorize output, print green if OK, or red if failed") is judged on the result line(s) of the console text, i.e. the lines starting with "OK (" or "Errors (" after their leading escape sequences, wherever the chosen output kind prints one '
+        '(plain console; the console that accompanies the junit files when -v or -vv is given; the teamcity console): such a line must be preceded on its line by an SGR escape sequence carrying 32/92 (green) for "OK (" and 31/91 (red) for "Errors ("; '
+        'nothing else about the colouring is demanded (no reset sequence, no colour for test names or failure messages; -ojunit without -v/-vv prints no result line and is only counted; escape bytes inside the junit files are counted, not judged). '
+        '"Errors (" covers both a failed probe and the "ran nothing" run, as printed by the runner itself. Without -c the console of a documented vector must not contain an ESC byte (all names, values and packages of such vectors are identifiers)',
+        'failing probes (a probe that records its execution and then fails a check) exist only in the exhaustive format x kind x outcome section, never together with -f',
         'separate-process mode is observed through the PlatformSpecificRunTestInASeperateProcess seam (no fork); -f is parsed, never combined with a failing test',
         'runs with a parsed repeat count > 8 are not executed (parser getters only)',
         'signed-integer-overflow in AtoI on unrepresentable numbers is counted, not fatal (DESIGN.md section 5)',
